@@ -1734,12 +1734,26 @@ func main() {
 		return
 	}
 	rng := vh.NewRng(args.Seed)
-	sectionOracle()
-	parked := sectionCorpus()
-	sectionHistory(rng.Fork("history"))
-	sectionParked(rng.Fork("parked"), parked)
-	sectionRespawn(corpusRespawn)
-	if args.Thorough {
+	// VERIF_SECTIONS=a,b restricts the run to the named sections (development aid; the check never sets it)
+	only := os.Getenv("VERIF_SECTIONS")
+	want := func(n string) bool { return only == "" || strings.Contains(","+only+",", ","+n+",") }
+	if want("oracle") {
+		sectionOracle()
+	}
+	var parked []parkedCase
+	if want("corpus") {
+		parked = sectionCorpus()
+	}
+	if want("history") {
+		sectionHistory(rng.Fork("history"))
+	}
+	if want("parked") {
+		sectionParked(rng.Fork("parked"), parked)
+	}
+	if want("respawn") {
+		sectionRespawn(corpusRespawn)
+	}
+	if args.Thorough && want("stress") {
 		sectionStress(rng.Fork("stress"))
 	}
 	res.Write(args.Out)
